@@ -875,6 +875,13 @@ class Gen:
         rng = self.rng
         t = self.pick()
         st = self.shape[t]
+        if not self.contig.get(t, False):
+            # the mutated copy of a non-contiguous array is allocated in NumPy's 'K' order (this happens when a view
+            # has become its own base after its base's graph was cleared): from here on the model does not know the
+            # strides of the non-contiguous members, so no `reshape` is generated on them
+            for n in self.known:
+                if not self.contig.get(n, False):
+                    self.known[n] = False
         k = rng.choice(["set", "set", "set", "aug", "aug", "outb", "outu"])
         if k == "set":
             r = rng.random()
